@@ -14,6 +14,14 @@ pub use crate::event::Which as Read;
 #[inline]
 pub fn read(which: Which) -> Option<u64> {
     let (s, me) = sim::ctx()?;
+    {
+        // While `Timer::precision()` measures, only the measuring thread is
+        // of interest: no scheduling point, no step-budget consumption.
+        let mut st = s.lock();
+        if st.clock.phase == Phase::Precision {
+            return Some(st.read_clock(me, which));
+        }
+    }
     Some(s.op(me, |st| Step::Done(st.read_clock(me, which))))
 }
 
